@@ -75,6 +75,9 @@ pub enum Op {
     DelayedStop { ms: u8 },
     /// the same with a delay above one second; the elapsed time must not be shorter than the delay
     LongDelayedStop,
+    /// interval / interval_with that stops the actor after `k` ticks of `period_us`; the elapsed time must
+    /// not be shorter than k periods (a timer never fires early: one-sided, load can only make it later)
+    TimedTicks { with: bool, k: u8, period_us: u32 },
     Feed(u8),
     EndStream,
     /// let the runtime run
@@ -597,6 +600,30 @@ async fn run_program(p: &Program) -> Record {
                 }
                 None => "skip".into(),
             },
+            Op::TimedTicks { with, k, period_us } => match &target {
+                Some(a) => {
+                    ended = true;
+                    let t0 = std::time::Instant::now();
+                    let period = Duration::from_micros(*period_us as u64);
+                    let k = (*k).max(1);
+                    let s = g!(a.send(Arm { with: *with, k, period }));
+                    let e = match futures::select! {
+                        r = a.clone().fuse() => Some(r),
+                        _ = hannibal::runtime::sleep(Duration::from_secs(6)).fuse() => None,
+                    } {
+                        Some(r) => show(r),
+                        None => {
+                            wd = true;
+                            "watchdog".to_string()
+                        }
+                    };
+                    // k ticks need at least k periods (10% slack for timer granularity)
+                    let need = period * k as u32 * 9 / 10;
+                    let timing = if s == "Ok(())" && e == "Ok(())" && t0.elapsed() < need { "early" } else { "in-time" };
+                    format!("{s}/{e}/{timing}")
+                }
+                None => "skip".into(),
+            },
             Op::Feed(n) => match &live.stream {
                 Some(tx) => {
                     for i in 0..*n {
@@ -726,6 +753,15 @@ mod generate {
             if id % 40 == 7 {
                 let at = (id as usize / 40) % 3;
                 ops.insert(at.min(ops.len()), Op::LongDelayedStop);
+            }
+            // timers never fire early: two ticks of 300 ms, and 20 ticks of a sub-millisecond period
+            if id % 40 == 17 {
+                let at = (id as usize / 40) % 3;
+                ops.insert(at.min(ops.len()), Op::TimedTicks { with: (id / 40) % 2 == 1, k: 2, period_us: 300_000 });
+            }
+            if id % 40 == 27 {
+                let at = (id as usize / 40) % 3;
+                ops.insert(at.min(ops.len()), Op::TimedTicks { with: (id / 40) % 2 == 1, k: 20, period_us: 900 });
             }
             out.push(Program { id, entry, ops });
         }
